@@ -342,7 +342,7 @@ def program_oracle(n, groups, programs, records):
             elif rep and got[3] != st + nrd:
                 out.append(("C01:natural-end-vs-scenario", f"program {p}, repairable emission {key}: natural end date "
                                                            f"{got[3]} but start + natural repair delay = {st + nrd}"))
-            elif got[3] != records[0][key][3]:
+            elif key in records[0] and got[3] != records[0][key][3]:
                 out.append(("C01:natural-end-differs-between-programs",
                             f"emission {key}: natural end date {got[3]} in program {p} but {records[0][key][3]} in the "
                             f"baseline (status {got[4]} vs {records[0][key][4]})"))
